@@ -71,7 +71,7 @@ def _path(clf, X, y=None, alpha_multiplier=1.05, min_features=2, keep_threshold=
         max_patience = 10
 
     # Start by fitting the model using all features and without regularisation
-    alpha = clf.alpha
+    initial_alpha = alpha = clf.alpha
     if alpha <= 0:
         warnings.warn(f"The penalty alpha is equal to 0 and cannot be geometrically increased, which implies "
                       f"infinite loop. Starting the path from the default: 1e-2")
@@ -172,5 +172,8 @@ def _path(clf, X, y=None, alpha_multiplier=1.05, min_features=2, keep_threshold=
             if clf.verbose:
                 print(f"This is definitely the best score so far within threshold: {iteration_gemini_score}, "
                       f"{best_gemini_score}")
+
+    # The path must leave the hyperparameters of the model as it found them
+    clf.set_params(alpha=initial_alpha)
 
     return best_weights, geminis, group_lasso_penalties, alphas, n_features
